@@ -285,7 +285,42 @@ def div(a, b, where="div"):
             return treal(a)
         return treal(a) / treal(b)
     oblige_safety(where + ":nonzero-denominator", b != 0)
-    return treal(a) / treal(b)
+    # canonical denominators (linear normal form): equal cell sizes written differently become the same term
+    tb = treal(b)
+    if _term_size_small(tb) and _no_uf_apps(tb):
+        tb = z3.simplify(tb, som=True)
+    return treal(a) / tb
+
+
+def _term_size_small(t, limit=60):
+    seen = 0
+    st = [t]
+    ids = set()
+    while st:
+        e = st.pop()
+        if e.get_id() in ids:
+            continue
+        ids.add(e.get_id())
+        seen += 1
+        if seen > limit:
+            return False
+        st.extend(e.children())
+    return True
+
+
+def _no_uf_apps(t):
+    """built from constants only (mesh sizes, origins, counts): no array elements / function values"""
+    st = [t]
+    ids = set()
+    while st:
+        e = st.pop()
+        if e.get_id() in ids:
+            continue
+        ids.add(e.get_id())
+        if z3.is_app(e) and e.decl().kind() == z3.Z3_OP_UNINTERPRETED and e.num_args() > 0:
+            return False
+        st.extend(e.children())
+    return True
 
 
 def floordiv(a, b):
